@@ -118,8 +118,10 @@ impl<Error: Send + 'static> DecodeScheduler<Error> {
 	}
 
 	pub fn run(&mut self) -> Result<NextStep, Error> {
-		// if the sound was manually stopped, end the thread
-		if self.shared.state() == PlaybackState::Stopped {
+		// if the sound was manually stopped, or if the sound was dropped
+		// (because its track or the audio manager was dropped, or because
+		// the track it was meant for turned out to be full), end the thread
+		if self.shared.state() == PlaybackState::Stopped || self.frame_producer.is_abandoned() {
 			#[cfg(kira_verif)]
 			crate::verif::point("decode_end", Arc::as_ptr(&self.shared) as usize, 0);
 			return Ok(NextStep::End);
